@@ -134,6 +134,12 @@ class Gen:
         desc["targets"]["t"] = desc["targets"]["t"] + ["od"]
         return desc
 
+    @staticmethod
+    def clang_ok(c):
+        """can this command be declared with the clang tool ? (arguments and one Makefile-style dependency file only)"""
+        return (c["tool"] == "shell" and not c["_env"] and c["_inherit_env"] and not c.get("_wd") and not c["_signature"]
+                and (not c["reads"] or c["_depstyle"] == "makefile") and not c.get("mutates"))
+
     def add_mutable(self, desc, r):
         """the documented idiom for a file modified in place: `mk` creates "mo" (is-mutated) and a command timestamp,
         `mu` consumes the timestamp and appends to "mo"; both re-run together, tampering with "mo" re-runs nothing"""
@@ -193,7 +199,14 @@ class Gen:
             cand = [x for x in shells if len(d["cmds"][x]["_extra"]) >= 2 and not d["cmds"][x]["_env"]]
             if cand: n = r.choice(cand)
         if "mu" in d["cmds"] and self.r3.random() < 0.25: n = self.r3.choice(["mu", "mk"]); k = "tag"     # only one half of the in-place idiom changes
+        elig = [x for x in shells if self.clang_ok(d["cmds"][x])]
+        if elig and self.r3.random() < 0.08:       # the same command declared with the other of the two tools (shell <-> clang)
+            n = self.r3.choice(elig); c = d["cmds"][n]
+            c["_toolspell"] = "shell" if c.get("_toolspell") == "clang" else "clang"; c["_relreads"] = False
+            c["_spell"] = dict(c["_spell"], deps="scalar")
+            return (d, "toolswitch") if self.well_formed(d) else (copy.deepcopy(desc), "none")
         c = d["cmds"].get(n)
+        if c is not None and c.get("_toolspell") == "clang" and k in ("env", "argenv", "depstyle", "signature"): k = "tag"    # (not expressible with the clang tool)
         if k == "tag":
             c["tag"] = c["tag"] + "x"
             if c["_signature"]: c["_signature"] += "x"      # an explicit signature is the user's promise: it changes with the body
@@ -252,6 +265,8 @@ class Gen:
         if f == "C14": desc = self.add_stale(desc)
         r3 = random.Random("mut/%s/%d" % (f, self.seed))      # (a stream of its own: the histories of a seed stay what they were)
         self.r3 = r3
+        for n, c in desc["cmds"].items():          # some eligible shell commands are declared with `tool: clang`
+            if self.clang_ok(c) and r3.random() < 0.15: c["_toolspell"] = "clang"; c["_relreads"] = False
         db = r.random() < 0.9; serial = r.random() < 0.5
         # the client cancels the build at the first failure (what the command line tool does): serial execution, and a new
         # frontend after every build (the in-memory state of an aborted build is the engine-level subject C05)
